@@ -51,7 +51,8 @@ def lake_build(targets):
     return rc == 0, out
 
 
-AUDIT_TMPL = """import {module}
+AUDIT_TMPL = """import Lean
+import {module}
 open Lean in
 #eval show CoreM Unit from do
   let env ← getEnv
@@ -81,7 +82,7 @@ def lean_audit(module):
     thms = []
     for line in out.splitlines():
         m = re.match(r"THM (\S+) (\S+) \[(.*)\]$", line)
-        if m:
+        if m and not re.search(r"(^|\.)(injEq|sizeOf_spec|eq_def|eq_\d+|match_\d+.*|proof_\d+|noConfusion.*|below_\d+|brecOn.*|rec_\d+|congr_simp|induct.*|fun_cases.*|ext|ext_iff|omega_.*)$", m.group(2)):
             axs = [a.strip() for a in m.group(3).split(",") if a.strip()]
             thms.append({"module": m.group(1), "name": m.group(2), "axioms": axs})
     return rc == 0, thms, out
